@@ -142,7 +142,10 @@ class StandardFuncs(SnowfakeryPlugin):
                         "Should not specify a date specification and also other parameters."
                     )
                 dt = parse_datetimespec(datetimespec)
-                dt = dt.replace(tzinfo=timezone)
+                if dt.tzinfo is None:
+                    dt = dt.replace(tzinfo=timezone)
+                else:  # keep the instant the user wrote
+                    dt = dt.astimezone(timezone)
             elif not (any((year, month, day, hour, minute, second, microsecond))):
                 # no dt specification provided at all...just use now()
                 dt = datetime.now(timezone)
